@@ -356,6 +356,29 @@ fn execute_c04(plan: &EncPlan) -> RunOut {
         Ok(Ok(())) if pre.starts_with(plan.existing.as_bytes()) && &pre[plan.existing.len()..] == &clean[..] => {}
         _ => out.violations.push(v("entrypoints", "entrypoints", "encode into a non-empty Vec did not append exactly the same bytes".into())),
     }
+    // a batch that is refused half-way (a family without samples at a seed-chosen position): both
+    // entry points that write into the caller's storage leave what was there and append the same bytes
+    {
+        let mut bad = mfs.clone();
+        let mut empty = proto::MetricFamily::default();
+        empty.set_name("zz_no_samples".to_string());
+        empty.set_help("h".to_string());
+        empty.set_field_type(proto::MetricType::GAUGE);
+        let at = (plan.seed % (bad.len() as u64 + 1)) as usize;
+        bad.insert(at, empty);
+        let mut via_write: Vec<u8> = plan.existing.as_bytes().to_vec();
+        let r1 = catch(|| enc.encode(&bad, &mut via_write).is_ok());
+        let mut via_string = plan.existing.clone();
+        let r2 = catch(|| enc.encode_utf8(&bad, &mut via_string).is_ok());
+        match (r1, r2) {
+            (Ok(false), Ok(false)) => {
+                if !via_write.starts_with(plan.existing.as_bytes()) || via_string.as_bytes() != &via_write[..] {
+                    out.violations.push(v("entrypoints", "entrypoints-after-refusal", format!("a refused batch left {} bytes in the Vec given to encode and {} bytes in the String given to encode_utf8 (both held {} bytes before); they must hold the same bytes and keep what was there", via_write.len(), via_string.len(), plan.existing.len())));
+                }
+            }
+            (a, b) => out.violations.push(v("refuse", "refuse", format!("a family without samples in the batch: encode -> {:?}, encode_utf8 -> {:?} (true = Ok)", a, b))),
+        }
+    }
     // the sink misbehaves
     let mut w = FaultyWriter::new(plan.writer.clone());
     let r = catch(|| enc.encode(&mfs, &mut w));
@@ -850,6 +873,22 @@ fn execute_c17(plan: &ApiPlan) -> RunOut {
                     guard("get_metric_with(renamed key, existing child)", true, catch(|| cv.get_metric_with(&m).is_ok()));
                     // the child is still there and still removable with the right labels
                     guard("remove_label_values(existing child)", false, catch(|| cv.remove_label_values(&vs).is_ok()));
+                }
+                // a local view that has a child cached while the child is removed through the vector itself:
+                // its own removal finds nothing to remove
+                for vals in values {
+                    if vals.len() != names.len() {
+                        continue;
+                    }
+                    let vs: Vec<&str> = vals.iter().map(|s| s.as_str()).collect();
+                    let mut lc = cv.local();
+                    lc.with_label_values(&vs).inc();
+                    let mut lh = hv.local();
+                    lh.with_label_values(&vs).observe(1.0);
+                    let _ = cv.remove_label_values(&vs);
+                    let _ = hv.remove_label_values(&vs);
+                    guard("LocalIntCounterVec::remove_label_values(child removed elsewhere)", true, catch(|| lc.remove_label_values(&vs).is_ok()));
+                    guard("LocalHistogramVec::remove_label_values(child removed elsewhere)", true, catch(|| lh.remove_label_values(&vs).is_ok()));
                 }
                 for pairs in maps {
                     let mut m: HashMap<&str, &str> = HashMap::new();
